@@ -136,9 +136,10 @@ func (p *HandlerMining) onMiningSubmit(ctx context.Context, msgTyped *m.MiningSu
 			}
 		}
 
-		// contract hashrate
+		// contract hashrate: only shares that go to the destination the miner is currently
+		// assigned to (the task's destination), not late shares of a previous destination
 		p.proxy.onSubmitMutex.RLock()
-		if p.proxy.onSubmit != nil {
+		if p.proxy.onSubmit != nil && dest == p.proxy.dest {
 			p.proxy.onSubmit(jobDiff)
 		}
 		p.proxy.onSubmitMutex.RUnlock()
